@@ -73,6 +73,12 @@ def gen_column(rng, k, mode):
         return [1.0]
     if mode == "dyadic":
         return [float(x) for x in common.rand_column(rng, k)]
+    if mode == "dyadic16":
+        # multiples of 1/16: exact in float32 and unchanged by rounding to 4 decimals (torch backend: the tensor
+        # constructor rounds to float32, an open finding recorded under C03)
+        den = rng.choice([4, 8, 16])
+        cuts = sorted(rng.randint(0, den) for _ in range(k - 1))
+        return [(b_ - a_) / den for a_, b_ in zip([0] + cuts, cuts + [den])]
     if mode == "onehot":
         i = rng.randrange(k)
         return [1.0 if j == i else 0.0 for j in range(k)]
@@ -82,15 +88,23 @@ def gen_column(rng, k, mode):
             w[0] = 1
         s = sum(w)
         return [x / s for x in w]
-    # tiny: k-1 small magnitudes, the rest goes to one entry
-    small = [rng.choice([1e-12, 3e-11, 1e-9, 2.5e-7, 1e-5, 1e-4, 9.9e-4, 1e-3, 0.0]) for _ in range(k - 1)]
+    if mode == "near":
+        # entries that differ by 1e-9 .. 1e-15 (only full-precision printing keeps them apart)
+        dlt = rng.choice([1e-9, 1e-12, 1e-15])
+        col = [1.0 / k] * k
+        col[0] += dlt
+        col[-1] -= dlt
+        return col
+    # tiny: k-1 small magnitudes (down to denormals), the rest goes to one entry
+    small = [rng.choice([1e-12, 3e-11, 1e-9, 2.5e-7, 1e-5, 1e-4, 9.9e-4, 1e-3, 0.0, 5e-324, 1e-300,
+                         2.2250738585072014e-308, 1e-100]) for _ in range(k - 1)]
     rest = 1.0 - sum(small)
     col = small + [rest]
     rng.shuffle(col)
     return col
 
 
-def gen_bn(rng, n, big=False, uai_big_cards=False, forced=None):
+def gen_bn(rng, n, big=False, uai_big_cards=False, forced=None, wide=False, states_kind="ident", modes=None):
     """forced = (names, cards, parents, state pool index or None): a fixed structure with random tables"""
     pool = KW_NAMES + PLAIN_NAMES
     r = rng.random()
@@ -130,6 +144,20 @@ def gen_bn(rng, n, big=False, uai_big_cards=False, forced=None):
         for v in names:
             sp = STATE_POOLS[spi] if spi is not None else rng.choice([q for q in STATE_POOLS if len(q) >= cards[v]])
             states[v] = rng.sample(sp, cards[v])
+    if wide:
+        # one CPD with 8..10 parents (>= 9 variables in one table), cardinalities mostly 2, one 3, sometimes a 1
+        k = 8 if wide == 8 else rng.choice([8, 9, 10])
+        names = ["p%d" % i for i in range(k)] + [rng.choice(["c", "table", "node"])]
+        cards = {v: 2 for v in names}
+        cards[names[rng.randrange(k)]] = 3
+        if rng.random() < 0.5:
+            cards[names[rng.randrange(k)]] = 1
+        states = {v: ["s%d" % i for i in range(cards[v])] for v in names}
+        pl = names[:k]
+        rng.shuffle(pl)
+        parents = {v: [] for v in names}
+        parents[names[-1]] = pl
+        parents[names[1]] = [names[0]]
     if big:
         # one CPD with more than 1000 entries
         names = ["a", "b", "c", "d"][:4]
@@ -138,13 +166,25 @@ def gen_bn(rng, n, big=False, uai_big_cards=False, forced=None):
         pl = ["a", "b", "c"]
         rng.shuffle(pl)
         parents = {"a": [], "b": [], "c": [], "d": pl}
-    mode = rng.choice(["dyadic", "onehot", "thirds", "tiny", "mixed"])
+    mode = rng.choice(modes or ["dyadic", "onehot", "thirds", "tiny", "mixed", "near"])
+    if states_kind == "default_int":      # TabularCPD without state_names: 0..k-1
+        states = {v: list(range(cards[v])) for v in names}
+    elif states_kind == "int_perm":       # integers that are not their positions
+        states = {}
+        for v in names:
+            st = list(range(cards[v])) if rng.random() < 0.5 else list(range(1, cards[v] + 1))
+            rng.shuffle(st)
+            if cards[v] > 1 and st == sorted(st):
+                st.reverse()
+            states[v] = st
+    elif states_kind == "bool":
+        states = {v: ([True, False] if rng.random() < 0.5 else [False, True]) if cards[v] == 2 else states[v] for v in names}
     values = {}
     for v in names:
         P = _prod(cards[p] for p in parents[v])
         cols = []
         for _ in range(P):
-            md = mode if mode != "mixed" else rng.choice(["dyadic", "onehot", "thirds", "tiny"])
+            md = mode if mode != "mixed" else rng.choice(["dyadic", "onehot", "thirds", "tiny", "near"])
             cols.append(gen_column(rng, cards[v], md))
         # values2d[c][j]
         values[v] = [[cols[j][c] for j in range(P)] for c in range(cards[v])]
@@ -157,7 +197,7 @@ def gen_bn(rng, n, big=False, uai_big_cards=False, forced=None):
     cpd_order = list(names)
     rng.shuffle(cpd_order)
     return {"names": names, "node_order": node_order, "edge_order": edge_order, "cpd_order": cpd_order,
-            "nodes_first": rng.random() < 0.7, "states": states, "parents": parents, "values": values, "mode": mode}
+            "nodes_first": rng.random() < 0.7, "states_kind": states_kind, "states": states, "parents": parents, "values": values, "mode": mode}
 
 
 def _prod(it):
@@ -248,21 +288,68 @@ def cases(tier, seed):
     out = []
     # every BIFReader construction costs ~2 s (pyparsing Word over pp.unicode.alphanums), n_jobs=2 ~10 s:
     # BIF is exercised on 40% of the cases, the other three formats on all
-    nb = 180 if tier == "quick" else 2400
+    nb = 150 if tier == "quick" else 2400
     for i in range(nb):
         n = rng.choice([1, 2, 3, 3, 4, 4, 5, 6])
-        bif = i % 5 in (0, 2)
+        bif = (i % 7 == 0) if tier == "quick" else (i % 5 in (0, 2))
         c = {"kind": "bn", "bn": gen_bn(rng, n, uai_big_cards=(i % 5 == 0)), "njobs": 2 if i % 100 == 12 else 1,
              "saveload": i % 3 == 0 and i % 10 != 0, "formats": ["bif", "xmlbif", "uai", "net"] if bif else ["xmlbif", "uai", "net"]}
         out.append(c)
+    # variants: one object used several times (sessions), file route, comments, properties, writer options, state-name
+    # kinds, torch backend -- each option drawn independently
+    def variant(opts, kind, bif, njobs=1, n=None):
+        o = {"session": False, "route": "string", "decorate": False, "props": False, "include_properties": False,
+             "xml_pretty": None, "round_values": None, "backend": "numpy"}
+        o.update(opts)
+        torch_ = o["backend"] == "torch"
+        if torch_ and o["round_values"] == 3:
+            o["round_values"] = 4        # torch: values must stay float32-exact after rounding
+        return {"kind": "bn", "bn": gen_bn(rng, n or rng.choice([1, 2, 3, 4, 5]), states_kind=kind,
+                                           modes=["dyadic16", "onehot"] if torch_ else None),
+                "njobs": njobs, "saveload": rng.random() < 0.15, "opts": o,
+                "formats": ["bif", "xmlbif", "uai", "net"] if bif else ["xmlbif", "uai", "net"]}
+
+    # BIF with each BIF-relevant option (a BIFReader costs 2 s, so these are listed, not drawn)
+    for rep in range(1 if tier == "quick" else 12):
+        for opts, kind, nj in [({"round_values": 0}, "ident", 1), ({"round_values": 3, "session": True}, "ident", 1),
+                               ({"props": True, "include_properties": True}, "ident", 1),
+                               ({"decorate": True, "route": "path"}, "ident", 1),
+                               ({"backend": "torch", "session": True}, "ident", 1), ({"session": True}, "int_perm", -1),
+                               ({"props": True, "session": True, "route": "path"}, "default_int", 2),
+                               ({"round_values": 12, "decorate": True}, "bool", 1)]:
+            out.append(variant(opts, kind, True, nj, n=rng.choice([2, 3, 4])))
+    # every option drawn independently
+    for i in range(36 if tier == "quick" else 700):
+        opts = {"session": rng.random() < 0.5, "route": rng.choice(["string", "path"]), "decorate": rng.random() < 0.3,
+                "props": rng.random() < 0.35, "include_properties": rng.random() < 0.5,
+                "xml_pretty": rng.choice([None, None, False]), "round_values": rng.choice([None, None, None, 0, 3, 12]),
+                "backend": rng.choice(["numpy", "numpy", "torch"])}
+        out.append(variant(opts, rng.choice(["ident", "default_int", "int_perm", "bool"]),
+                           tier != "quick" and rng.random() < 0.3, rng.choice([1, 1, 1, 2]) if i % 10 else -1))
+    # wide CPDs: 8..10 parents (>= 9 variables in one table; long rows / deep nesting in the NET array text)
+    for i in range(3 if tier == "quick" else 30):
+        out.append({"kind": "bn", "bn": gen_bn(rng, 10, wide=8 if tier == "quick" else True), "njobs": 1, "saveload": i % 2 == 0,
+                    "opts": {"session": i % 2 == 1}, "formats": ["xmlbif", "uai", "net"] + (["bif"] if i % 3 == 0 else [])})
+    # the empty network (UAI text of an empty network is not readable by UAIReader: reported, not exercised)
+    out.append({"kind": "empty"})
+    # edits between two saves to the same path (the second file must be that of a freshly built model)
+    for i in range(8 if tier == "quick" else 80):
+        out.append({"kind": "edit", "bn": gen_bn(rng, rng.choice([3, 4, 5])), "fmt": ["xmlbif", "uai", "net", "bif"][i % 4],
+                    "op": ["replace", "remove_leaf", "add_node", "remove_edge"][(i // 4 + i) % 4], "seed": rng.randint(0, 10**9)})
+    # calls that must be rejected
+    for what in ["writer-type", "reader-noarg", "truncated"]:
+        for fmt in ["bif", "xmlbif", "uai", "net"]:
+            if not (what != "writer-type" and fmt == "bif" and tier == "quick" and False):
+                out.append({"kind": "reject", "what": what, "fmt": fmt})
     # fixed structures: the input classes on which earlier reader/writer versions failed, and keyword-equal names
     # for variables and states together (every one of them is an ordinary round trip now)
     for rep in range(1 if tier == "quick" else 6):
         for names, fc, fp, spi in REGRESSION_STRUCTURES:
             out.append({"kind": "bn", "fixed": True, "bn": gen_bn(rng, len(names), forced=(names, fc, fp, spi)), "njobs": 1,
                         "saveload": rep % 2 == 1, "formats": ["bif", "xmlbif", "uai", "net"]})
-    for i in range(6 if tier == "quick" else 40):
+    for i in range(5 if tier == "quick" else 40):
         out.append({"kind": "bn", "bn": gen_bn(rng, 4, big=True), "njobs": 1, "saveload": i % 2 == 0,
+                    "opts": {"session": i % 2 == 0},
                     "formats": ["xmlbif", "uai", "net"] + (["bif"] if i % 3 == 0 else [])})
     # save/load dispatch: every (extension, filetype) pair, consistent or contradictory
     for rep in range(1 if tier == "quick" else 5):
@@ -314,7 +401,7 @@ def build_bn(b):
         ps = b["parents"][v]
         card = len(b["states"][v])
         arr = np.array(b["values"][v], dtype=float).reshape(card, -1)
-        sn = {x: list(b["states"][x]) for x in [v] + ps}
+        sn = {} if b.get("states_kind") == "default_int" else {x: list(b["states"][x]) for x in [v] + ps}
         m.add_cpds(TabularCPD(v, card, arr, evidence=ps or None,
                               evidence_card=[len(b["states"][p]) for p in ps] or None, state_names=sn))
     return m
@@ -529,22 +616,78 @@ def compare_named(fmt, ref, got):
 
 # ------------------------------------------------------------------ run: Bayesian networks
 def run_bn(case, drv):
+    opts = case.get("opts") or {}
+    if opts.get("backend") == "torch":
+        from pgmpy import config
+        config.set_backend("torch")
+        try:
+            return run_bn_inner(case, drv, opts)
+        finally:
+            config.set_backend("numpy")
+    return run_bn_inner(case, drv, opts)
+
+
+def snapshot(m):
+    """everything a writer could change in the model it is given, except the order of the CPD list"""
+    import numpy as np
+    cp = sorted(((repr(c.variable), [repr(v) for v in c.variables], [int(x) for x in c.cardinality],
+                  np.asarray(c.values, dtype=float).tobytes().hex(), repr(sorted((repr(k), repr(v)) for k, v in c.state_names.items())))
+                 for c in m.get_cpds()), key=lambda t: t[0])
+    return [repr(list(m.nodes(data=True))), repr(list(m.edges())), cp, repr(getattr(m, "name", None)),
+            repr(sorted(getattr(m, "latents", set()), key=repr))]
+
+
+def decorate(fmt, text):
+    """the same file with comments added in the format's own comment syntax (the comments mention keywords)"""
+    if fmt in ("bif", "net"):
+        out = []
+        for ln in text.split("\n"):
+            if ln.startswith(("variable ", "probability ", "node ", "potential ")):
+                out.append("// variable fake { probability ( fake ) table 0.5 ; node fake{ potential (fake |){ data = (1.0);")
+                out.append("/* block comment")
+                out.append("   network x { } */")
+            out.append(ln)
+        return "\n".join(out)
+    if fmt == "uai":
+        lines = text.split("\n")
+        return "\n".join([lines[0]] + ["# 7 7 7 a comment line 1e+16"] + [ln + (" # c 3 3" if ln.strip() else "") for ln in lines[1:]])
+    if fmt == "xmlbif":
+        return text.replace("<NETWORK>", "<NETWORK><!-- a comment <VARIABLE> -->", 1).replace(
+            "<DEFINITION>", "<!-- DEFINITION 0.5 0.5 --><DEFINITION>")
+    return text
+
+
+GETTERS = ["get_variables", "get_states", "get_parents", "get_edges", "get_values", "get_tables", "get_domain",
+           "get_network_name", "get_property"]
+
+
+def run_bn_inner(case, drv, opts):
+    import numpy as np
     from pgmpy.models import BayesianNetwork
     from pgmpy.readwrite import (BIFReader, BIFWriter, XMLBIFReader, XMLBIFWriter, UAIReader, UAIWriter,
                                  NETReader, NETWriter)
     b = case["bn"]
     names = b["names"]
     m = build_bn(b)
+    if opts.get("props"):
+        for i, v in enumerate(b["node_order"]):
+            m.nodes[v]["position"] = "(%d, %d)" % (10 * i, 7 * i + 1)
+            if i % 2 == 0:
+                m.nodes[v]["label"] = ["probability", "variable", "table", "node", "x"][i % 5]
     if m.check_model() is not True:
         return bad("harness:invalid-model", {})
+    b = dict(b, states={v: [str(x) for x in b["states"][v]] for v in names})   # state names as the strings written
+    rv = opts.get("round_values")
+    route = opts.get("route", "string")
+    snap0 = snapshot(m) if opts.get("session") else None
     svars = sorted(names)
     var_id = {v: i for i, v in enumerate(svars)}
     id_var = {i: v for v, i in var_id.items()}
     all_states = sorted({s for v in names for s in b["states"][v]})
     state_id = {s: i for i, s in enumerate(all_states)}
     id_state = {i: s for s, i in state_id.items()}
-    req, flats = model_request(b, m, var_id, state_id)
-    ref = named(m)
+    req, flats0 = model_request(b, m, var_id, state_id)
+    ref0 = named(m)
     ref_edges = sorted(m.edges())
     sizes = [len(b["values"][v]) * len(b["values"][v][0]) for v in names]
     maxpar = max(len(b["parents"][v]) for v in names)
@@ -580,9 +723,16 @@ def run_bn(case, drv):
         tags.append("CPD list order != node order")
     if list(m.nodes()) != sorted(m.nodes()):
         tags.append("node order != sorted")
+    for k_, v_ in sorted(opts.items()):
+        if v_ not in (None, False, "string", "numpy"):
+            tags.append("opt %s=%s" % (k_, v_))
+    if b.get("states_kind", "ident") != "ident":
+        tags.append("state names " + b["states_kind"])
+    if maxpar >= 8:
+        tags.append("wide CPD (>= 8 parents)")
     key = common.canon_key(["bn", b["names"], b["node_order"], b.get("edge_order"), b.get("cpd_order"),
                             b.get("nodes_first"), b["states"], b["parents"], b["values"],
-                            case["njobs"], case["saveload"], case.get("formats")])
+                            case["njobs"], case["saveload"], case.get("formats"), sorted(opts.items())])
     fmts = [("bif", BIFWriter, BIFReader), ("xmlbif", XMLBIFWriter, XMLBIFReader),
             ("uai", UAIWriter, UAIReader), ("net", NETWriter, NETReader)]
     for fmt, W, R in fmts:
@@ -590,13 +740,63 @@ def run_bn(case, drv):
             continue
         tags.append("format=" + fmt)
         text = None
+        # writer options: rounding (BIF, UAI), XML indentation
+        wkw = {}
+        if rv is not None and fmt in ("bif", "uai"):
+            wkw["round_values"] = rv
+            flats = {v: [float(np.round(x, rv)) for x in fl] for v, fl in flats0.items()}
+            ref = {k_: float(np.round(x, rv)) for k_, x in ref0.items()}
+        else:
+            flats, ref = flats0, ref0
+        if fmt == "xmlbif" and opts.get("xml_pretty") is False:
+            wkw["prettyprint"] = False
+        rkw = {"n_jobs": case["njobs"]} if fmt == "bif" else {}
+        if opts.get("props") and opts.get("include_properties") and fmt in ("bif", "net"):
+            rkw["include_properties"] = True
+        path = os.path.join(TMP, "r_%d_%s_%s" % (os.getpid(), key, fmt))
         try:
-            text = str(W(m))
-            kw = {"n_jobs": case["njobs"]} if fmt == "bif" else {}
-            m2 = R(string=text, **kw).get_model()
+            w = W(m, **wkw)
+            text = str(w)
+            if opts.get("session"):
+                # the same writer object again: str() twice, then the file written by the same object
+                if str(w) != text:
+                    return bad("session:%s-writer-str-twice-differs" % fmt, {}, key=key, tags=tags)
+                getattr(w, "write_" + fmt)(path)
+                with open(path) as fh:
+                    if fh.read() != text:
+                        return bad("session:%s-write-after-str-differs" % fmt, {}, key=key, tags=tags)
+                if str(W(m, **wkw)) != text:
+                    return bad("session:%s-second-writer-differs" % fmt, {}, key=key, tags=tags)
+            rtext = decorate(fmt, text) if opts.get("decorate") else text
+            if route == "path":
+                with open(path, "w") as fh:
+                    fh.write(rtext)
+                r = R(path=path, **rkw)
+            else:
+                r = R(string=rtext, **rkw)
+            if opts.get("session"):
+                for g_ in GETTERS:      # the public getters again, before the model is built
+                    if hasattr(r, g_) and not (g_ == "get_property" and fmt == "net" and "include_properties" not in rkw):
+                        getattr(r, g_)()
+            m2 = r.get_model()
+            if opts.get("session"):
+                # the same reader object again; results are independent objects
+                m2b = r.get_model()
+                if m2b is m2 or any(c1 is c2 for c1 in m2.get_cpds() for c2 in m2b.get_cpds()):
+                    return bad("session:%s-get_model-twice-shares-objects" % fmt, {}, key=key, tags=tags)
+                for c_ in m2.get_cpds():
+                    c_.values[...] = 0.125      # scribble over the first result
+                m2c = r.get_model()
+                if named(m2c) != named(m2b):
+                    return bad("session:%s-get_model-result-aliases-reader-state" % fmt, {}, key=key, tags=tags)
+                m2 = m2c
         except Exception as e:  # a writer or reader that cannot handle a valid model violates the property
             return bad("roundtrip-raises:%s:%s" % (fmt, type(e).__name__), {"error": str(e)[:300], "names": names,
-                       "parents": b["parents"], "cards": {v: len(b["states"][v]) for v in names}}, key=key, tags=tags)
+                       "parents": b["parents"], "cards": {v: len(b["states"][v]) for v in names}, "opts": opts},
+                       key=key, tags=tags)
+        finally:
+            if os.path.exists(path):
+                os.remove(path)
         entry = "c09_" + fmt
         reply = drv.call(entry, req)
         doc, rb = reply[0], reply[1]
@@ -640,7 +840,7 @@ def run_bn(case, drv):
         if dd:
             return bad("impl!=spec:%s-named-assignment" % fmt, dd, key=key, tags=tags)
         # ---- save / load agree with the classes
-        if case["saveload"] and fmt != "net":
+        if case["saveload"] and fmt != "net" and not wkw and not opts.get("decorate"):
             path = os.path.join(TMP, "m_%d_%s.%s" % (os.getpid(), key, fmt))
             try:
                 m.save(path) if fmt == "bif" else m.save(path, filetype=fmt)
@@ -665,6 +865,9 @@ def run_bn(case, drv):
             if got3 != got or e3 != edges2:
                 return bad("impl!=spec:%s-load-differs-from-reader" % fmt, {}, key=key, tags=tags)
             tags.append("save/load " + fmt)
+    if snap0 is not None and snapshot(m) != snap0:
+        return bad("purity:writers-or-save-changed-the-model", {"before": snap0[:2], "after": snapshot(m)[:2]},
+                   key=key, tags=tags)
     return ok(nontrivial=maxpar >= 1, key=key, tags=tags)
 
 
@@ -842,7 +1045,193 @@ def run_sl(case, drv):
     return ok(nontrivial=True, key=key, tags=tags)
 
 
+FMT_CLASSES = None
+
+
+def fmt_classes():
+    from pgmpy.readwrite import (BIFReader, BIFWriter, XMLBIFReader, XMLBIFWriter, UAIReader, UAIWriter,
+                                 NETReader, NETWriter)
+    return {"bif": (BIFWriter, BIFReader), "xmlbif": (XMLBIFWriter, XMLBIFReader), "uai": (UAIWriter, UAIReader),
+            "net": (NETWriter, NETReader)}
+
+
+def uai_back(m, m2):
+    """rename var_i / positional states of a UAI result back through the documented (str(card), name) sort"""
+    cards = {c.variable: int(c.variable_card) for c in m.get_cpds()}
+    order = sorted(cards, key=lambda v: (str(cards[v]), v))
+    vmap = {"var_%d" % i: v for i, v in enumerate(order)}
+    smap = {c.variable: {i: str(st) for i, st in enumerate(c.state_names[c.variable])} for c in m.get_cpds()}
+    return named(m2, vmap, smap), sorted((vmap[a], vmap[c]) for a, c in m2.edges())
+
+
+def run_empty(case, drv):
+    from pgmpy.models import BayesianNetwork
+    cl = fmt_classes()
+    for fmt in ("bif", "xmlbif", "net"):
+        W, R = cl[fmt]
+        try:
+            m2 = R(string=str(W(BayesianNetwork())), **({"n_jobs": 1} if fmt == "bif" else {})).get_model()
+        except Exception as e:
+            return bad("roundtrip-raises:%s:%s" % (fmt, type(e).__name__), {"error": str(e)[:200], "model": "empty"},
+                       key="empty", tags=["empty network"])
+        if list(m2.nodes()) or list(m2.edges()) or m2.get_cpds():
+            return bad("impl!=spec:%s-empty-network" % fmt, {"nodes": list(m2.nodes())}, key="empty", tags=["empty network"])
+    return ok(nontrivial=False, key="empty", tags=["empty network"])
+
+
+def run_edit(case, drv):
+    """save, edit the SAME model object through a mutator, save to the SAME path again: the second file is the
+    text of a freshly built model of the current state and loads back to it"""
+    import copy
+    from pgmpy.models import BayesianNetwork
+    from pgmpy.factors.discrete import TabularCPD
+    b = case["bn"]
+    fmt, op = case["fmt"], case["op"]
+    rng = random.Random(case["seed"])
+    W, R = fmt_classes()[fmt]
+    key = common.canon_key(["edit", b["names"], b["parents"], b["values"], b["states"], fmt, op, case["seed"]])
+    tags = ["edit op=" + op, "edit format=" + fmt]
+    m = build_bn(b)
+    path = os.path.join(TMP, "e_%d_%s.%s" % (os.getpid(), key, fmt))
+    rkw = {"n_jobs": 1} if fmt == "bif" else {}
+
+    def save_and_load(model):
+        if fmt == "net":
+            W(model).write_net(path)
+            back = R(path=path).get_model()
+        else:
+            model.save(path, filetype=fmt)
+            back = BayesianNetwork.load(path, filetype=fmt, **rkw)
+        with open(path) as fh:
+            return fh.read(), back
+
+    def same(model, back):
+        if fmt == "uai":
+            got, edges = uai_back(model, back)
+        else:
+            got, edges = named(back), sorted(back.edges())
+        if edges != sorted(model.edges()):
+            return {"what": "edges", "read": edges, "expected": sorted(model.edges())}
+        return compare_named(fmt, named(model), got)
+
+    try:
+        t1, back1 = save_and_load(m)
+        dd = same(m, back1)
+        if dd:
+            return bad("impl!=spec:edit-first-roundtrip", dd, key=key, tags=tags)
+        # ---- the edit, on the object and on the description
+        nb = copy.deepcopy(b)
+        for k_ in ("edge_order", "cpd_order"):
+            nb.pop(k_, None)
+        children = {p for v in b["names"] for p in b["parents"][v]}
+        if op == "remove_leaf" and (len(b["names"]) < 2):
+            op = "replace"
+        if op == "remove_edge" and not any(b["parents"][v] for v in b["names"]):
+            op = "replace"
+
+        def new_cpd(v, ps):
+            card = len(nb["states"][v])
+            P = _prod(len(nb["states"][q]) for q in ps)
+            cols = [gen_column(rng, card, rng.choice(["dyadic", "thirds", "tiny"])) for _ in range(P)]
+            nb["values"][v] = [[cols[j][c] for j in range(P)] for c in range(card)]
+            nb["parents"][v] = list(ps)
+            import numpy as np
+            return TabularCPD(v, card, np.array(nb["values"][v], dtype=float).reshape(card, -1), evidence=list(ps) or None,
+                              evidence_card=[len(nb["states"][q]) for q in ps] or None,
+                              state_names={x: list(nb["states"][x]) for x in [v] + list(ps)})
+
+        if op == "replace":
+            v = rng.choice(b["names"])
+            m.add_cpds(new_cpd(v, b["parents"][v]))       # in-place replacement of an existing variable's CPD
+        elif op == "remove_leaf":
+            v = rng.choice([x for x in b["names"] if x not in children])
+            m.remove_node(v)
+            nb["names"] = [x for x in nb["names"] if x != v]
+            nb["node_order"] = [x for x in nb["node_order"] if x != v]
+            for d_ in ("states", "parents", "values"):
+                nb[d_].pop(v)
+        elif op == "add_node":
+            v = "zz_new"
+            p_ = rng.choice(b["names"])
+            nb["names"].append(v)
+            nb["node_order"].append(v)
+            nb["states"][v] = ["new_a", "new_b", "new_c"]
+            m.add_node(v)
+            m.add_edge(p_, v)
+            m.add_cpds(new_cpd(v, [p_]))
+        elif op == "remove_edge":
+            v = rng.choice([x for x in b["names"] if b["parents"][x]])
+            p_ = rng.choice(b["parents"][v])
+            m.remove_edge(p_, v)
+            m.add_cpds(new_cpd(v, [q for q in b["parents"][v] if q != p_]))
+        if m.check_model() is not True:
+            return bad("harness:invalid-model", {"after": op})
+        fresh = build_bn(nb)
+        t2, back2 = save_and_load(m)
+        if t2 != str(W(fresh)):
+            return bad("session:second-save-differs-from-fresh-model", {"op": op, "fmt": fmt, "len": [len(t2), len(str(W(fresh)))]},
+                       key=key, tags=tags)
+        dd = same(fresh, back2)
+        if dd:
+            return bad("session:load-after-edit-differs-from-fresh-model", dict(dd, op=op), key=key, tags=tags)
+    except Exception as e:
+        return bad("edit-raises:%s:%s" % (fmt, type(e).__name__), {"error": str(e)[:300], "op": op}, key=key, tags=tags)
+    finally:
+        if os.path.exists(path):
+            os.remove(path)
+    return ok(nontrivial=True, key=key, tags=tags)
+
+
+def run_reject(case, drv):
+    """calls that must raise: a writer given another kind of model, a reader given neither path nor string, a
+    written text with one number (BIF: one row) removed"""
+    from pgmpy.base import DAG
+    from pgmpy.models import BayesianNetwork, MarkovNetwork
+    from pgmpy.factors.discrete import TabularCPD
+    fmt, what = case["fmt"], case["what"]
+    W, R = fmt_classes()[fmt]
+    key = "reject-%s-%s" % (what, fmt)
+    tags = ["reject " + what, "reject format=" + fmt]
+    try:
+        if what == "writer-type":
+            W(DAG([("a", "b")]) if fmt == "uai" else MarkovNetwork([("a", "b")]))
+            return bad("accepted:writer-of-wrong-model-type", {"fmt": fmt}, key=key, tags=tags)
+        if what == "reader-noarg":
+            R()
+            return bad("accepted:reader-without-input", {"fmt": fmt}, key=key, tags=tags)
+        m = BayesianNetwork([("a", "c"), ("b", "c")])
+        sn = {"a": ["x", "y"], "b": ["u", "v", "w"], "c": ["p", "q", "r"]}
+        m.add_cpds(TabularCPD("a", 2, [[0.25], [0.75]], state_names={"a": sn["a"]}),
+                   TabularCPD("b", 3, [[0.5], [0.25], [0.25]], state_names={"b": sn["b"]}),
+                   TabularCPD("c", 3, [[0.5] * 6, [0.25] * 6, [0.25] * 6], evidence=["b", "a"], evidence_card=[3, 2], state_names=sn))
+        text = str(W(m))
+        if fmt == "bif":
+            cut = re.sub(r"    \( w, y \) [^\n]*\n", "", text, count=1)
+        elif fmt == "xmlbif":
+            cut = text.replace("0.25 </TABLE>", "</TABLE>")
+        elif fmt == "uai":
+            cut = text[:text.rstrip().rfind(" ")]
+        else:
+            i = text.rfind("0.25")
+            cut = text[:i] + text[i + 4:]
+        if cut == text:
+            return bad("harness:truncation-did-nothing", {"fmt": fmt}, key=key, tags=tags)
+        try:
+            R(string=cut, **({"n_jobs": 1} if fmt == "bif" else {})).get_model()
+        except Exception:
+            return ok(nontrivial=True, key=key, tags=tags)
+        return bad("accepted:truncated-table", {"fmt": fmt}, key=key, tags=tags)
+    except (TypeError, ValueError):
+        return ok(nontrivial=True, key=key, tags=tags)
+
+
 def run_case(case, drv):
+    if case["kind"] == "empty":
+        return run_empty(case, drv)
+    if case["kind"] == "edit":
+        return run_edit(case, drv)
+    if case["kind"] == "reject":
+        return run_reject(case, drv)
     if case["kind"] == "bn":
         return run_bn(case, drv)
     if case["kind"] == "sl":
